@@ -195,12 +195,27 @@ func Probes(n int) []Probe {
 		{Name: "handler-calls", MinYield: n, Events: []core.Event{{Name: "down", Num: []string{"1", "2"}}},
 			Program: "on down x:num y:num\n    z := x + y\n    print \"A\"\n" + strings.Repeat("    z = z + (f 1)\n", n) + "    print \"B\" z\nend\nfunc f:num a:num\n    return a\nend\n"},
 	}
+	// bodies that do no work of their own: the demand is per iteration and per call, whatever the body is
+	ps = append(ps,
+		Probe{Name: "for-comment-body", MinYield: n, Program: fmt.Sprintf("print \"A\"\nfor range %d\n    // nothing to do\nend\nprint \"B\"\n", n)},
+		Probe{Name: "for-blank-body", MinYield: n, Program: fmt.Sprintf("print \"A\"\nfor i := range %d\n\n    // i is not needed\n\nend\nprint \"B\"\n", n)},
+		Probe{Name: "for-array-comment-body", MinYield: n, Program: fmt.Sprintf("arr := [0] * %d\nprint \"A\"\nfor range arr\n    // skip\nend\nprint \"B\"\n", n)},
+		Probe{Name: "while-var-cond", MinYield: n, Program: fmt.Sprintf("x := 0\ngo := true\nprint \"A\"\nwhile go\n    x = x + 1\n    go = x < %d\nend\nprint \"B\" x\n", n)},
+		Probe{Name: "while-literal-cond-break", MinYield: n, Program: fmt.Sprintf("x := 0\nprint \"A\"\nwhile true\n    x = x + 1\n    if x >= %d\n        break\n    end\nend\nprint \"B\" x\n", n)},
+		Probe{Name: "empty-func-calls", MinYield: n, Program: "print \"A\"\n" + strings.Repeat("noop\n", n) + "print \"B\"\nfunc noop\n    // nothing\nend\n"},
+		Probe{Name: "literal-return-calls", MinYield: n, Program: "x := 0\nprint \"A\"\n" + strings.Repeat("x = (one)\n", n) + "print \"B\" x\nfunc one:num\n    return 1\nend\n"},
+		Probe{Name: "nested-empty-loops", MinYield: n * 2, Program: fmt.Sprintf("print \"A\"\nfor range %d\n    for range 2\n        // inner\n    end\nend\nprint \"B\"\n", n)},
+	)
 	return ps
 }
 
 // Endless builds programs that never end by themselves.
 func Endless(r *prng.R) (string, []core.Event) {
-	switch r.Intn(6) {
+	switch r.Intn(8) {
+	case 6:
+		return "print \"waiting\"\nwhile true\n    // busy wait\nend\n", nil
+	case 7:
+		return "running := true\nwhile running\n\n    // wait for an event\nend\non key\n    running = false\nend\n", []core.Event{{Name: "key", Str: []string{"q"}}}
 	case 0:
 		return "x := 0\nwhile true\n    x = x + 1\nend\n", nil
 	case 1:
